@@ -215,7 +215,14 @@ fr.register(kept,'kept'); W.keptRefs.push(new WeakRef(kept));
 weakobs('alive-now', W.refs.filter(function(r){ return r.deref()!==undefined; }).length, W.refs.length); weakobs('kept-deref', W.keptRefs.every(function(r,i){ return r.deref()===W.kept[i]; }));
 print('weak-dropped', W.refs.length);
 "# },
+    Kernel { name: "weak-throwing-cleanup", kind: 'x', src: r#"
+var W=globalThis.__weak||(globalThis.__weak={frs:[], refs:[], kept:[], keptRefs:[]}); W.tfrs=W.tfrs||[];
+var tfr=new FinalizationRegistry(function(held){ weakobs('finalized', held); if (/T/.test(held)) throw 'cleanup-throw:'+held; }); W.tfrs.push(tfr); W.frs.push(tfr);
+(function(){ for (var i=0;i<$A%3+2;i++){ tfr.register({i:i, pad:new Array(10).fill(i)}, 'dropped-T'+W.tfrs.length+'-'+i); tfr.register({q:i}, 'dropped-q'+W.tfrs.length+'-'+i); } })();
+print('weak-throwing-cleanup', W.tfrs.length);
+"# },
     Kernel { name: "weak-observe", kind: 'o', src: r#"
+if (globalThis.__weak && globalThis.__weak.tfrs) { globalThis.__weak.late=(globalThis.__weak.late||0)+1; globalThis.__weak.tfrs.forEach(function(fr, n){ (function(){ fr.register({late:1}, 'dropped-late'+globalThis.__weak.late+'-'+n); fr.register({late:2}, 'dropped-lateT'+globalThis.__weak.late+'-'+n); })(); }); }
 var W=globalThis.__weak; if (W){ var first=W.refs.map(function(r){ return r.deref()!==undefined; }); var again=W.refs.map(function(r){ return r.deref()!==undefined; });
 weakobs('alive-later', first.filter(Boolean).length, W.refs.length); weakobs('stable-within-job', first.join()==again.join()); weakobs('kept-deref', W.keptRefs.every(function(r,i){ return r.deref()===W.kept[i]; })); }
 print('weak-observe', W ? W.refs.length : -1);
